@@ -199,7 +199,7 @@ func matchArith(val *Term, ref arithRef, ep string) (bool, string) {
 }
 
 func ruleC02Unary(c *Ctx) {
-	c.Doc("c02.unary-table", "unary dispatch: - is the numeric negation of the operand (-x, -1*x or 0-x), ~ is ^ on its int64 conversion converted back, ! is the boolean negation; the operand is the unwrapped evaluation of expr.Expr")
+	c.Doc("c02.unary-table", "unary dispatch: - is the numeric negation of the operand (-x or -1*x; not 0-x, which loses the sign of zero), ~ is ^ on its int64 conversion converted back, ! is the boolean negation; the operand is the unwrapped evaluation of expr.Expr")
 	f := c.theFunc("unary dispatch", "*sqlparser.UnaryExpr", "UnaryExpr")
 	if f == nil {
 		c.Unknown("c02.unary-table", "UnaryExpr", "-", "anchor lost")
@@ -251,7 +251,8 @@ func ruleC02Unary(c *Ctx) {
 				case val.Op == "bin" && val.Name == "*" && (val.Args[0].Name == "-1" && operand(val.Args[1], "float64") || val.Args[1].Name == "-1" && operand(val.Args[0], "float64")):
 					ok = true
 				case val.Op == "bin" && val.Name == "-" && val.Args[0].Name == "0" && operand(val.Args[1], "float64"):
-					ok = true
+					// (accepted until round 8: the table had taken 0-x for -x, which it is not on IEEE doubles)
+					why = "unary minus computes 0 - x: the negation of 0 is -0 (1/-z is -Inf), and 0 - 0 is +0"
 				default:
 					why = "unary minus computes " + val.String()
 				}
